@@ -411,7 +411,7 @@ REJ_OK_TODAY = {
     "SAMPLE:ROW": "DuckDB parser does not know the ROW sampling method",
     "SAMPLE:BLOCK": "DuckDB parser does not know the BLOCK sampling method",
     "IDENTIFIER:quoted_name": "quotes inside the string are copied into the identifier",
-    "VALUES:columnN_through_table_alias": "values_columns skips VALUES that carry a table alias",
+    "VALUES:first_table_then_CROSS_or_INNER_JOIN_of_a_real_table": "checks.is_unqualified_table_expression raises AssertionError('Unexpected parent kind: CROSS') when the first real table of a SELECT is the right side of a CROSS / INNER JOIN (any derived table in front of it, not only VALUES)",
     "ALIAS_IN_JOIN:alias_on_the_right": "alias_in_join only handles `alias = expr` as the whole ON condition",
     "ALIAS_IN_JOIN:alias_in_and": "same",
 }
@@ -1006,7 +1006,7 @@ def gen_equal_null(tier, out, stats):
             if ta is not None and tb is not None and fam(ta) != fam(tb):
                 continue  # comparisons across type families are not what EQUAL_NULL documents
             nulls = (a is None) + (b is None)
-            case("EQUAL_NULL", f"EQUAL_NULL({sa}, {sb})", lambda a=a, b=b: sf.equal_null(a, b), "bool", f"fn=EQUAL_NULL,nulls={nulls}", ctx=(sa == "1"), out=out, stats=stats)
+            case("EQUAL_NULL", f"EQUAL_NULL({sa}, {sb})", lambda a=a, b=b: sf.equal_null(a, b), "bool", f"fn=EQUAL_NULL,nulls={nulls}", ctx=(sa in ("1", "NULL") and sb in ("1", "2", "NULL")), out=out, stats=stats)
     case("EQUAL_NULL", _col("EQUAL_NULL(c, NULL)", "NULL::INT"), lambda: True, "bool", "fn=EQUAL_NULL,arg=column", out=out, stats=stats)
 
 
@@ -1057,7 +1057,44 @@ def nest_inners(tier):
             ("TO_DATE", f"TO_DATE({q('2024-02-29 23:59:59')}::TIMESTAMP_NTZ)", D(2024, 2, 29), "d"),
             ("DATEDIFF", f"DATEDIFF(month, {q('2024-01-31')}::DATE, {q('2024-02-01')}::DATE)", 1, "n i"),
         ]
-    return ins
+    return ins + compound_inners()
+
+
+def compound_inners():
+    """Compound expressions as arguments, written without parentheses of their own (the call's parentheses delimit them):
+    OR / AND / NOT / comparison / IS NULL / IN / BETWEEN, + - * and unary minus, ||, CASE, DATE + integer.  A rewrite that
+    replaces the call by an operator expression has to keep each argument together.  Same tuple shape as nest_inners; the
+    numbers are exact at scale 2 (no rounding question in the outer conversion)."""
+    return [
+        ("COMPOUND[or]", "FALSE OR TRUE", True, "b"),
+        ("COMPOUND[or]", "FALSE OR FALSE", False, "b"),
+        ("COMPOUND[and]", "TRUE AND FALSE", False, "b"),
+        ("COMPOUND[and]", "TRUE AND TRUE", True, "b"),
+        ("COMPOUND[not]", "NOT TRUE", False, "b"),
+        ("COMPOUND[comparison]", "1 = 2", False, "b"),
+        ("COMPOUND[comparison]", "1 < 2", True, "b"),
+        ("COMPOUND[comparison]", "2 <> 2", False, "b"),
+        ("COMPOUND[is_null]", "1 IS NULL", False, "b"),
+        ("COMPOUND[is_null]", "1 IS NOT NULL", True, "b"),
+        ("COMPOUND[in]", "1 IN (1, 2)", True, "b"),
+        ("COMPOUND[in]", "3 NOT IN (1, 2)", True, "b"),
+        ("COMPOUND[between]", "3 BETWEEN 1 AND 2", False, "b"),
+        ("COMPOUND[sum]", "10 + 2.25", Decimal("12.25"), "n"),
+        ("COMPOUND[sum]", "60 - 1", 59, "n i"),
+        ("COMPOUND[sum]", "60 - 1 - 1", 58, "n i"),
+        ("COMPOUND[product]", "2 * 30", 60, "n i"),
+        ("COMPOUND[product]", "2 + 2 * 30", 62, "n i"),
+        ("COMPOUND[unary_minus]", "-60", -60, "n i"),
+        ("COMPOUND[concat]", f"{q('a-b')} || {q('-c')}", "a-b-c", "s"),
+        ("COMPOUND[concat]", f"{q('2024-02')} || {q('-29')}", "2024-02-29", "s sd"),
+        ("COMPOUND[concat]", f"{q('12')} || {q('.25')}", "12.25", "s sn"),
+        ("COMPOUND[case]", f"CASE WHEN 1 = 1 THEN {q('a-b-c')} ELSE {q('z')} END", "a-b-c", "s"),
+        ("COMPOUND[case]", "CASE WHEN 1 = 2 THEN 0 ELSE 12.25 END", Decimal("12.25"), "n"),
+        ("COMPOUND[case]", "CASE WHEN 1 = 2 THEN 0 ELSE 59 END", 59, "n i"),
+        ("COMPOUND[case]", "CASE WHEN 1 = 1 THEN FALSE ELSE TRUE END", False, "b"),
+        ("COMPOUND[case]", f"CASE WHEN 1 = 1 THEN {q('2024-02-29')}::DATE END", D(2024, 2, 29), "d"),
+        ("COMPOUND[date_plus_days]", f"{q('2024-02-28')}::DATE + 1", D(2024, 2, 29), "d"),
+    ]
 
 
 def nest_outers():
@@ -1089,7 +1126,10 @@ def nest_outers():
         ("DATEADD", "amount", "i", f"DATEADD(day, {{x}}, {q('2024-01-01')}::DATE)", lambda v: sf.dateadd("day", int(v), D(2024, 1, 1)), "date", None),
         ("DATEDIFF", "first", "d t", f"DATEDIFF(day, {{x}}, {q('2024-03-01')}::DATE)", lambda v: sf.datediff("day", v, D(2024, 3, 1)), "num", {"scale": 0}),
         ("DATEDIFF", "second", "d t", f"DATEDIFF(month, {q('2023-12-31')}::DATE, {{x}})", lambda v: sf.datediff("month", D(2023, 12, 31), v), "num", {"scale": 0}),
-        ("EQUAL_NULL", "first", "s n d t b", None, lambda v: True, "bool", None),
+        # EQUAL_NULL: the inner call as either operand; the other operand is the documented inner value, a different value
+        # of the same type, or NULL (the documented truth table: equal -> TRUE, different -> FALSE, one NULL -> FALSE)
+        ("EQUAL_NULL", "first", "s n d t b", None, None, "bool", None),
+        ("EQUAL_NULL", "second", "s n d t b", None, None, "bool", None),
     ]
 
 
@@ -1101,10 +1141,13 @@ def gen_nested(tier, out, stats):
         for ofn, arg, accept, tpl, oref, kind, meta in nest_outers():
             if not tags & set(accept.split()):
                 continue
-            if tpl is None:  # EQUAL_NULL(<inner>, <literal of the documented inner value>)
-                sql = f"EQUAL_NULL({isql}, {lit(ival)})"
-            else:
-                sql = tpl.format(x=isql)
+            if tpl is None:  # EQUAL_NULL(<inner>, <other>) / EQUAL_NULL(<other>, <inner>)
+                for other in (ival, sf.different(ival), None):
+                    sql = f"EQUAL_NULL({isql}, {lit(other)})" if arg == "first" else f"EQUAL_NULL({lit(other)}, {isql})"
+                    case("NESTED", sql, lambda ival=ival, other=other: sf.equal_null(ival, other), "bool",
+                         f"ctx=nested_in={ofn},arg={arg},inner={ifn}", out=out, stats=stats)
+                continue
+            sql = tpl.format(x=isql)
             k = kind or ("ts" if isinstance(ival, TS) else "date")
             form = f"NESTED:{ofn}.{arg}({ifn})"
             case("NESTED", sql, lambda oref=oref, ival=ival: oref(ival), k, f"ctx=nested_in={ofn},arg={arg},inner={ifn}", meta=meta,
@@ -1412,6 +1455,67 @@ def work_contexts(item, acc: core.Acc, tier):
 
 
 # ====================================================================================================================
+# operator contexts: the call as an operand.  A function call is atomic: standing to the left or the right of = <> < <= > >=,
+# of AND / OR, under NOT, before IS [NOT] NULL, as subject or member of IN, as subject or bound of BETWEEN, in CASE, as an
+# argument of COALESCE / IFF / NULLIF, as an operand of + - * and unary minus, of ||, and as the operand of a cast (:: and
+# CAST) it has to contribute its documented value.  The table of positions and their expectations (three-valued logic etc.)
+# is mc.ref.sf_functions.operator_contexts; it is applied to every case flagged ctx (every function of the table, both
+# constant syntaxes).  Only the value is judged (the result type of an operator is not part of the property).
+# Not demanded: anything when the select-list evaluation of the call itself already deviates or is rejected (reported under
+# its own clause; the operand's value cannot be told apart from the operator's).
+
+
+def opctx_cases(c):
+    """[(family, sql, expectation)] for a flagged case."""
+    _, v, kind, _meta = c["exp"]
+    if kind not in ("str", "num", "float", "bool", "date", "ts"):
+        return []
+    try:
+        table = sf.operator_contexts(v, kind)
+        w = lit(sf.different(v)) if v is not None else "NULL"
+    except (sf.NotDemanded, OverflowError):
+        return []
+    out = []
+    for family, tpl, val, k in table:
+        out.append((family, tpl.format(F=c["sql"], V=lit(v), W=w), ("val", val, k, {})))
+    return out
+
+
+def work_opctx(item, acc: core.Acc, tier):
+    """item = index of a case flagged ctx."""
+    cases, _ = expr_cases(tier)
+    c = cases[item]
+    cur = _cur()
+    (base,), stmts = eval_exprs(cur, [c["sql"]])
+    acc.obs((c["sql"], obs_repr(base)))
+    if base[0] == "rej" or verdicts(c, base):
+        acc.count("statements", stmts)
+        acc.count("operator_context_skipped_base_deviates")
+        return 0
+    ocs = opctx_cases(c)
+    nbad = 0
+    for lo in range(0, len(ocs), BATCH):
+        chunk = ocs[lo:lo + BATCH]
+        obs, n = eval_exprs(cur, [sql for _f, sql, _e in chunk])
+        stmts += n
+        for (family, sql, exp), o in zip(chunk, obs):
+            acc.count("evaluations")
+            acc.count("operator_context_cases")
+            acc.obs((sql, obs_repr(o)))
+            acc.outcome(("opctx", family, c["fn"], o[0]))
+            acc.nontrivial(("opctx", sql))
+            cls = f"ctx=operator,op={family},fn={c['fn']}"
+            bad = (not c["rej_ok"]) if o[0] == "rej" else not value_ok(exp, o[1])
+            acc.member("C10.context", cls, bad)
+            if bad:
+                nbad += 1
+                acc.violation("C10.context", cls, {"sql": sql, "call": c["sql"], "expected": _exp_repr(exp), "observed": obs_repr(o), "select_list": obs_repr(base)},
+                              {"kind": "opctx", "fn": c["fn"], "sql": c["sql"], "op_sql": sql, "tier": tier})
+    acc.count("statements", stmts)
+    return nbad
+
+
+# ====================================================================================================================
 # statement-level constructs: RANDOM(seed), SAMPLE … SEED, IDENTIFIER(), VALUES columnN, ARRAY_AGG, alias in JOIN … ON
 #
 # A statement case is a dict {fn, cls, check, ...}; `check` names the oracle:
@@ -1563,15 +1667,15 @@ def stmt_cases(tier):
         ("three_columns_null", "SELECT column3, column1 FROM VALUES (1, 2, NULL), (4, 5, 'x')", [(None, 1), ("x", 4)], ["COLUMN3", "COLUMN1"], False),
         ("table_alias_star", "SELECT * FROM (VALUES (1,'a'),(2,'b')) AS v", ab, ["COLUMN1", "COLUMN2"], False),
         ("table_alias_column_list", "SELECT * FROM (VALUES (1,'a'),(2,'b')) AS v (x, y)", ab, ["X", "Y"], False),
-        # column1 through a table alias: the transform skips aliased VALUES -> right rows or rejected
-        ("table_alias_columnN", "SELECT column2 FROM (VALUES (1,'a'),(2,'b')) AS v", [("a",), ("b",)], ["COLUMN2"], rej("VALUES:columnN_through_table_alias")),
-        ("table_alias_qualified_columnN", "SELECT v.column1 FROM (VALUES (1,'a'),(2,'b')) AS v", [(1,), (2,)], ["COLUMN1"], rej("VALUES:columnN_through_table_alias")),
+        # column1 through a table alias (answered since values_columns keeps the alias name)
+        ("table_alias_columnN", "SELECT column2 FROM (VALUES (1,'a'),(2,'b')) AS v", [("a",), ("b",)], ["COLUMN2"], False),
+        ("table_alias_qualified_columnN", "SELECT v.column1 FROM (VALUES (1,'a'),(2,'b')) AS v", [(1,), (2,)], ["COLUMN1"], False),
     ]
     if tier == T:
         vals += [
             ("single_row", "SELECT column1 FROM VALUES (7)", [(7,)], ["COLUMN1"], False),
             ("aggregate", "SELECT SUM(column1) FROM VALUES (1),(2),(3)", [(6,)], None, False),
-            ("join_two_values", "SELECT a.column1, b.column1 FROM (VALUES (1),(2)) a JOIN (VALUES (2),(3)) b ON a.column1 = b.column1", [(2, 2)], ["COLUMN1", "COLUMN1"], rej("VALUES:columnN_through_table_alias")),
+            ("join_two_values", "SELECT a.column1, b.column1 FROM (VALUES (1),(2)) a JOIN (VALUES (2),(3)) b ON a.column1 = b.column1", [(2, 2)], ["COLUMN1", "COLUMN1"], False),
             ("union", "SELECT column1 FROM VALUES (1) UNION ALL SELECT column1 FROM VALUES (2)", [(1,), (2,)], ["COLUMN1"], False),
         ]
     for form, sql, rows, names, rjk in vals:
@@ -1628,6 +1732,112 @@ def stmt_cases(tier):
                 form = f"{b['fn']}:{b['form']}:{cx}"
                 add(dict(w, fn=b["fn"], check="stmt_ctx", mode=b["mode"], cls=f"fn={b['fn']},form={b['form']},ctx={cx}",
                          rej_ok=form in REJ_OK_TODAY, n=b.get("n"), ctx=cx))
+    # ---- the table-like constructs (VALUES, IDENTIFIER('table'), SAMPLE) in every table position of a join ----------
+    cs.extend(joined_cases(tier))
+    return cs
+
+
+# Table positions.  A table-like construct is not only met as the single table under FROM: it is the first or the second
+# table of JOIN / LEFT JOIN / CROSS JOIN / a comma join, next to a real table or (VALUES) next to another VALUES table, and
+# the joining SELECT stands alone, in a CTE, in a subquery in FROM, in a view, in CREATE TABLE AS and in INSERT … SELECT.
+# Judged: the rows (reference join below), the column names (description and the keys of a DictCursor; SELECT * and
+# aliased references), and that references to the construct's columns (v.column1, r.rid) resolve in the select list and in
+# the join condition.  Not demanded: the order of rows; DictCursor keys when SELECT * yields a name twice; names of an
+# INSERT target.
+JOIN_PARTNERS = {
+    "table": {"sql": "c10_l l", "key": "l.id", "val": "l.col", "cols": ["ID", "COL"], "types": ["INT", "VARCHAR"]},
+    "values": {"sql": "(VALUES (1, 'VARCHAR1'), (2, 'VARCHAR2'), (3, 'XCHAR1')) l", "key": "l.column1", "val": "l.column2", "cols": ["COLUMN1", "COLUMN2"],
+               "types": ["INT", "VARCHAR"]},
+}
+V_ROWS = [(1, "NL"), (3, "NO"), (7, "XX")]
+_V_SQL = "VALUES (1, 'NL'), (3, 'NO'), (7, 'XX')"
+
+
+def join_sources(tier):
+    """(fn, form, partner, table expression, key reference, value reference, column names, column types, rows, key index, value index)"""
+    vc, vt = ["COLUMN1", "COLUMN2"], ["INT", "VARCHAR"]
+    rc, rt = ["RID", "RCOL", "OTHER"], ["INT", "VARCHAR", "VARCHAR"]
+    src = [
+        ("VALUES", "aliased", "table", f"({_V_SQL}) v", "v.column1", "v.column2", vc, vt, V_ROWS, 0, 1),
+        ("VALUES", "aliased", "values", f"({_V_SQL}) v", "v.column1", "v.column2", vc, vt, V_ROWS, 0, 1),
+        ("VALUES", "unaliased", "table", f"({_V_SQL})", "column1", "column2", vc, vt, V_ROWS, 0, 1),
+        ("IDENTIFIER", "table_name", "table", "IDENTIFIER('c10_r') r", "r.rid", "r.other", rc, rt, R_ROWS, 0, 2),
+        ("SAMPLE", "SAMPLE_SEED,p=100", "table", "c10_r r SAMPLE (100) SEED (1)", "r.rid", "r.other", rc, rt, R_ROWS, 0, 2),
+    ]
+    if tier == T:
+        src += [
+            ("VALUES", "aliased_AS", "table", f"({_V_SQL}) AS v", "v.column1", "v.column2", vc, vt, V_ROWS, 0, 1),
+            ("VALUES", "aliased_unqualified_reference", "table", f"({_V_SQL}) v", "column1", "column2", vc, vt, V_ROWS, 0, 1),
+            ("IDENTIFIER", "qualified_table_name", "table", "IDENTIFIER('db1.s1.c10_r') r", "r.rid", "r.other", rc, rt, R_ROWS, 0, 2),
+            ("SAMPLE", "SAMPLE_BERNOULLI_SEED,p=100", "table", "c10_r r SAMPLE BERNOULLI (100) SEED (420)", "r.rid", "r.other", rc, rt, R_ROWS, 0, 2),
+            ("SAMPLE", "SAMPLE_SEED,p=0", "table", "c10_r r SAMPLE (0) SEED (1)", "r.rid", "r.other", rc, rt, [], 0, 2),
+        ]
+    return src
+
+
+# (position, construct is the first table, FROM clause template, where the condition goes, LEFT JOIN keeps unmatched rows of the first table)
+JOIN_POSITIONS = {
+    Q: [("first_of_join", True, "{a} JOIN {b} ON {cond}", False), ("second_of_join", False, "{a} JOIN {b} ON {cond}", False),
+        ("second_of_left_join", False, "{a} LEFT JOIN {b} ON {cond}", True),
+        ("first_of_cross_join", True, "{a} CROSS JOIN {b} WHERE {cond}", False), ("second_of_cross_join", False, "{a} CROSS JOIN {b} WHERE {cond}", False),
+        ("first_of_comma_join", True, "{a}, {b} WHERE {cond}", False), ("second_of_comma_join", False, "{a}, {b} WHERE {cond}", False)],
+    T: [("first_of_left_join", True, "{a} LEFT JOIN {b} ON {cond}", True), ("first_of_inner_join", True, "{a} INNER JOIN {b} ON {cond}", False),
+        ("second_of_inner_join", False, "{a} INNER JOIN {b} ON {cond}", False)],
+}
+JOIN_SELECTS = ("refs", "star", "star_no_reference")
+JOIN_WRAPS = ("select", "cte", "subquery", "view", "ctas", "insert_select")
+
+
+def joined_cases(tier):
+    cs = []
+    drop = ["DROP VIEW IF EXISTS c10_xv", "DROP TABLE IF EXISTS c10_x"]
+    for fn, form, pname, ssql, skey, sval, scols, stypes, srows, ki, vi in join_sources(tier):
+        pt = JOIN_PARTNERS[pname]
+        for pos, first, tpl, left in _t(tier, JOIN_POSITIONS[Q], JOIN_POSITIONS[T]):
+            for selv in JOIN_SELECTS:
+                cond = f"{pt['key']} = 1" if selv == "star_no_reference" else f"{pt['key']} = {skey}"
+                a, b = (ssql, pt["sql"]) if first else (pt["sql"], ssql)
+                frm = tpl.format(a=a, b=b, cond=cond)
+                # reference join
+                match = (lambda l, r: l[0] == 1) if selv == "star_no_reference" else (lambda l, r: l[0] == r[ki])  # noqa: E731,E741
+                pairs = [(l, r) for l in L_ROWS for r in srows if match(l, r)]  # noqa: E741
+                if left:
+                    if first:
+                        pairs += [(None, r) for r in srows if not any(match(l, r) for l in L_ROWS)]  # noqa: E741
+                    else:
+                        pairs += [(l, None) for l in L_ROWS if not any(match(l, r) for r in srows)]  # noqa: E741
+                nl, nr = (None,) * len(pt["cols"]), (None,) * len(scols)
+                if selv == "refs":
+                    sel = f"SELECT {pt['val']} AS c, {sval} AS w FROM {frm}"
+                    rows = [((l or nl)[1], (r or nr)[vi]) for l, r in pairs]  # noqa: E741
+                    names, types = ["C", "W"], ["VARCHAR", "VARCHAR"]
+                else:
+                    sel = f"SELECT * FROM {frm}"
+                    rows = [tuple(r or nr) + tuple(l or nl) if first else tuple(l or nl) + tuple(r or nr) for l, r in pairs]  # noqa: E741
+                    names = scols + pt["cols"] if first else pt["cols"] + scols
+                    types = stypes + pt["types"] if first else pt["types"] + stypes
+                unique = len(set(names)) == len(names)
+                for wrap in JOIN_WRAPS:
+                    if wrap != "select" and not unique:
+                        continue  # a derived table / view / table cannot hold the same column name twice
+                    pre, read, wnames, cleanup = [], sel, names, []
+                    if wrap == "cte":
+                        read = f"WITH j AS ({sel}) SELECT * FROM j"
+                    elif wrap == "subquery":
+                        read = f"SELECT * FROM ({sel}) j"
+                    elif wrap == "view":
+                        pre, read, cleanup = [f"CREATE OR REPLACE VIEW c10_xv AS {sel}"], "SELECT * FROM c10_xv", drop
+                    elif wrap == "ctas":
+                        pre, read, cleanup = [f"CREATE OR REPLACE TABLE c10_x AS {sel}"], "SELECT * FROM c10_x", drop
+                    elif wrap == "insert_select":
+                        cols = ", ".join(f"k{i} {t}" for i, t in enumerate(types))
+                        pre, read, wnames, cleanup = [f"CREATE OR REPLACE TABLE c10_x ({cols})", f"INSERT INTO c10_x {sel}"], "SELECT * FROM c10_x", None, drop
+                    sql = pre[-1] if pre else read
+                    # the executed statement is a SELECT whose first real table follows CROSS JOIN / INNER JOIN: rejected today
+                    rjk = rej("VALUES:first_table_then_CROSS_or_INNER_JOIN_of_a_real_table",
+                              fn == "VALUES" and pname == "table" and pos in ("first_of_cross_join", "first_of_inner_join") and wrap in ("select", "cte", "subquery"))
+                    cs.append({"fn": fn, "check": "joined", "cls": f"fn={fn},form=joined:{form},partner={pname},pos={pos}", "select": selv, "wrap": wrap,
+                               "pre": pre, "sql": sql, "read": read, "rows": rows, "names": wnames, "unique_names": unique, "cleanup": cleanup, "rej_ok": rjk})
     return cs
 
 
@@ -1699,7 +1909,7 @@ def _ctx_wrap(cx, b):
 def _stmt_violation(acc, c, tier, idx, failed, detail):
     acc.member("C10.stmt", c["cls"], failed)
     if failed:
-        acc.violation("C10.stmt", c["cls"], dict(detail, sql=c["sql"]), {"kind": "stmt", "fn": c["fn"], "sql": c["sql"], "index": idx, "tier": tier})
+        acc.violation("C10.stmt", c["cls"], dict(detail, sql=c["sql"], **{k: c[k] for k in ("select", "wrap") if k in c}), {"kind": "stmt", "fn": c["fn"], "sql": c["sql"], "index": idx, "tier": tier})
 
 
 def check_stmt(cur, c):
@@ -1722,6 +1932,45 @@ def check_stmt(cur, c):
             return True, {"problem": "rows", "expected": norm(c["rows"]), "observed": norm(r[1])}, ob
         if c.get("names") and r[2] is not None and [d[0] for d in r[2]] != c["names"]:
             return True, {"problem": "column names", "expected": c["names"], "observed": [d[0] for d in r[2]]}, ob
+        return False, {}, ob
+    if k == "joined":
+        from snowflake.connector.cursor import DictCursor
+
+        def fin(res):
+            for z in c.get("cleanup", []):
+                run_sql(cur, z, want_desc=False)
+            return res
+
+        for st in c["pre"]:
+            r = run_sql(cur, st, want_desc=False)
+            if r[0] == "rej":
+                return fin(((not c["rej_ok"]), {"problem": "rejected", "statement": st, "exception": r[2]}, ("rej", st, r[2])))
+        r = run_sql(cur, c["read"])
+        if r[0] == "rej":
+            return fin(((not c["rej_ok"]), {"problem": "rejected", "statement": c["read"], "exception": r[2]}, ("rej", c["read"], r[2])))
+        got_names = [d[0] for d in r[2]] if r[2] else None
+        dcur = _W["conn"].cursor(DictCursor)
+        try:
+            dcur.execute(c["read"])
+            drows = dcur.fetchall()
+            dobs = ("ok", sorted((tuple(d.keys()), norm(tuple(d.values()))) for d in drows))
+        except Exception as e:  # noqa: BLE001
+            drows, dobs = None, ("rej", _exc(e))
+        ob = ("ok", sorted(norm(x) for x in r[1]), got_names, dobs)
+        fin(None)
+        if not _rows_equal(r[1], c["rows"], False):
+            return True, {"problem": "rows", "expected": norm(c["rows"]), "observed": norm(r[1])}, ob
+        if c["names"] is not None:
+            if got_names is not None and got_names != c["names"]:
+                return True, {"problem": "column names (description)", "expected": c["names"], "observed": got_names}, ob
+            if c["unique_names"]:
+                if drows is None:
+                    return (not c["rej_ok"]), {"problem": "rejected through a DictCursor", "exception": dobs[1]}, ob
+                for d in drows:
+                    if list(d.keys()) != c["names"]:
+                        return True, {"problem": "column names (DictCursor keys)", "expected": c["names"], "observed": list(d.keys())}, ob
+                if not _rows_equal([tuple(d.values()) for d in drows], c["rows"], False):
+                    return True, {"problem": "rows through a DictCursor", "expected": norm(c["rows"]), "observed": norm([tuple(d.values()) for d in drows])}, ob
         return False, {}, ob
     if k == "random":
         # Demanded: the same statement text with the same seed gives the same values when it is executed again (the
@@ -1859,6 +2108,7 @@ def run(ctx: core.Ctx):
     items = [(lo, min(lo + BATCH, len(cases))) for lo in range(0, len(cases), BATCH)]
     ctx.pmap(work_exprs, items)
     ctx.pmap(work_contexts, [i for i, c in enumerate(cases) if c["ctx"]])
+    ctx.pmap(work_opctx, [i for i, c in enumerate(cases) if c["ctx"]])
     ctx.pmap(work_fetch_paths, [i for i, c in enumerate(cases) if c["fetch"]])
     ctx.pmap(work_stmts, list(range(len(stmt_cases(tier)))))
     ctx.exhaustive = True
@@ -1904,6 +2154,15 @@ def replay(payload):
             print("violation:", cl, k, v["detail"]["observed"])
         print("verdict:", "VIOLATION" if acc.viol else "ok")
         return bool(acc.viol)
+    if r["kind"] == "opctx":
+        bad = False
+        for family, sql, exp in opctx_cases(c):
+            if sql == r["op_sql"]:
+                (o,), _n = eval_exprs(cur, [sql])
+                bad = (not c["rej_ok"]) if o[0] == "rej" else not value_ok(exp, o[1])
+                print(f"operator context {family}: {sql}\n  expected", _exp_repr(exp), "observed", obs_repr(o))
+        print("verdict:", "VIOLATION" if bad else "ok")
+        return bad
     if r["kind"] == "expr":
         bad = verdicts(c, base)
         print("verdict:", bad or "ok")
